@@ -367,7 +367,9 @@ pub fn run(run: &Run) {
     }
     run.extra("exhaustive_scope", json!(scope));
     search(run, &C13, run.tier.pick(30_000, 600_000));
-    cli_family(run, run.tier.pick(250, 2500));
+    cli_family(run, run.tier.pick(250, 2500));    if run.tier == Tier::Thorough {
+        crate::fuzz::campaign(run, "c13_cfg", 1_000_000, 256);
+    }
 }
 
 pub fn replay(run: &Run, case: &serde_json::Value) -> Result<Vec<Violation>, String> {
